@@ -7,6 +7,7 @@ pub mod pkce;
 pub mod poll;
 pub mod req;
 pub mod resp;
+pub mod revoke;
 pub mod seceq;
 pub mod urlt;
 pub mod err;
@@ -25,6 +26,7 @@ pub fn dispatch(op: &str, cfg: &RunCfg, d: &mut Driver) -> Option<OpResult> {
         "url" => run_op::<urlt::UrlCase>(cfg, d),
         "seceq" => run_op::<seceq::SecEqCase>(cfg, d),
         "resp" => run_op::<resp::RespCase>(cfg, d),
+        "revoke" => run_op::<revoke::RevokeCase>(cfg, d),
         "poll" => run_op::<poll::PollCase>(cfg, d),
         "tok" => run_op::<tok::TokCase>(cfg, d),
         "err" => run_op::<err::ErrCase>(cfg, d),
